@@ -404,9 +404,29 @@ func rootOfSlice(v ssa.Value, depth int) sliceRoot {
 		if b, ok := x.Call.Value.(*ssa.Builtin); ok && b.Name() == "append" {
 			return rootOfSlice(x.Call.Args[0], depth+1)
 		}
+		if sc := staticCallee(x); sc != nil && sc.Blocks != nil && depth < 8 && sc.Signature.Results().Len() == 1 {
+			var worst sliceRoot
+			worst.kind = "fresh"
+			n := 0
+			instrs(sc, func(in ssa.Instruction) {
+				if ret, ok := in.(*ssa.Return); ok && len(ret.Results) == 1 {
+					n++
+					rr := rootOfSlice(ret.Results[0], depth+4)
+					if rootRank(rr.kind) > rootRank(worst.kind) {
+						worst = rr
+					}
+				}
+			})
+			if n > 0 && (worst.kind == "field" || worst.kind == "fresh") {
+				if worst.kind == "field" {
+					worst.desc = "result of " + sc.Name() + " which may return " + worst.desc
+				}
+				return worst
+			}
+		}
 		return sliceRoot{kind: "call", desc: calleeFullName(x)}
 	case *ssa.Phi:
-		// worst root among edges
+		// worst root among edges (a shared field beats everything else)
 		var worst sliceRoot
 		worst.kind = "fresh"
 		for _, e := range x.Edges {
@@ -414,7 +434,7 @@ func rootOfSlice(v ssa.Value, depth int) sliceRoot {
 				continue
 			}
 			rr := rootOfSlice(e, depth+3)
-			if rr.kind != "fresh" {
+			if rootRank(rr.kind) > rootRank(worst.kind) {
 				worst = rr
 			}
 		}
@@ -435,7 +455,7 @@ func rootOfSlice(v ssa.Value, depth int) sliceRoot {
 				for _, ref := range *a.Referrers() {
 					if st, ok := ref.(*ssa.Store); ok && st.Addr == a {
 						rr := rootOfSlice(st.Val, depth+3)
-						if rr.kind != "fresh" {
+						if rootRank(rr.kind) > rootRank(worst.kind) {
 							worst = rr
 						}
 					}
@@ -521,4 +541,22 @@ func ruleAppendAlias(w *World, r *Report, rule string, owners map[*types.Named]b
 			r.Fail(rule, construct, as.call.Pos(), fmt.Sprintf("append on shared slice %s.%s whose result is not kept by the owner (stored: %s): with spare capacity it writes into the backing array other holders read/append concurrently", as.root.owner.Obj().Name(), as.root.field.Name(), as.stored))
 		}
 	}
+}
+
+func rootRank(kind string) int {
+	switch kind {
+	case "field":
+		return 6
+	case "global", "freevar":
+		return 5
+	case "param":
+		return 4
+	case "mapelem":
+		return 3
+	case "call":
+		return 2
+	case "other":
+		return 1
+	}
+	return 0
 }
